@@ -127,3 +127,14 @@ Theorem C20_relocated_full_builder : forall nodes root t init lit fuel fuel0 r r
   relocated init (code_of_build r0) (code_of_build r) = true.
 Proof. exact C20_relocated_full_builder_proof. Qed.
 Print Assumptions C20_relocated_full_builder.
+
+(* ... and for EVERY token sequence the parser model accepts (C05_parse_tree_of):
+   relocation and frame of the builder model's output *)
+Theorem C20_relocated_full_parsed : forall toks root nodes,
+  parse toks = Ok (root, nodes) -> nodes <> [] ->
+  exists t, tree_of nodes root = Some t /\
+    forall init lit fuel fuel0 r r0, ~ Known_C05_K1 init t -> ~ Known_C05_K2 t ->
+      build nodes init lit fuel root = Ok r -> build nodes empty_init lit fuel0 root = Ok r0 ->
+      relocated init (code_of_build r0) (code_of_build r) = true /\ own_code init (code_of_build r) = true.
+Proof. exact C20_relocated_full_parsed_proof. Qed.
+Print Assumptions C20_relocated_full_parsed.
